@@ -307,6 +307,10 @@ def _drain(dec, got, M):
 def main(chk: Check) -> None:
     try:
         gen()
+        # C02's composition theorems rest on the C01 decoder model and the C06 option-header model
+        from . import c01, c06
+        c01.gen()
+        c06.gen()
     except px.Unsupported as e:
         chk.broken("translator", "C02/Gen.v", str(e))
     chk.forbidden_scan()
@@ -319,7 +323,9 @@ def main(chk: Check) -> None:
         "extraction ExtrOcamlBasic + tools/conv.ml + coq/C02/driver.ml",
         "hand-written models of urllib.parse quote_plus / urlencode / parse_qsl / unquote and of the werkzeug.url_quote error handler, validated differentially",
         "header names compared with ASCII lower-casing (Content-Disposition filter in the encoder)",
-        "the decode half of the multipart round trip rests on the C01 decoder model and theorems",
+        "the decode half of the multipart round trip rests on the C01 decoder model and theorems; part identity "
+        "(name / filename) rests on the C01 header-block model and the C06 parse_options_header model, each compared with "
+        "the implementation by its own check",
     ]
     run(chk)
     chk.finish(rule="urlencode: lists of Unicode pairs over an alphabet of reserved characters, spaces, '+', '%', escapes, controls, non-BMP, "
